@@ -173,6 +173,10 @@ def pickUntil (s : State) (w : Nat) : Nat → Option (State × Out)
     | some (s', .wait) => pickUntil s' w fuel
     | some r => some r
 
+/-- handler.go starts every per-height goroutine with the one slice `jobS` (fact re-read from the source by the
+harness on every run); the LTS below is the model of exactly that -/
+def workersShareTaskSlice : Bool := true
+
 /-- the code sets no deadline on the reply stream and does not tie it to the 10 s dial context: a fetch from a
 peer that accepts the stream and stays silent never returns (no `ret` label becomes enabled by time alone) -/
 def fetchHasDeadline : Bool := false
